@@ -300,11 +300,24 @@ mod ffi {
     impl ItemB { pub fn id(&self) -> u8 { self.0 } }
 }
 """
-ONLY = {"opt_string_lists": ("c", "cpp", "nanobind"), "dup_files": ("js", "dart", "cpp")}
+OVERLOADS = """#[diplomat::bridge]
+mod ffi {
+    #[diplomat::opaque]
+    pub struct Acc(pub i32);
+    impl Acc {
+        // two methods exposed under one name in the backends that declare method_overloading
+        #[diplomat::attr(supports = method_overloading, rename = "add")]
+        pub fn add_int(&mut self, x: i32) { self.0 += x; }
+        #[diplomat::attr(supports = method_overloading, rename = "add")]
+        pub fn add_pair(&mut self, x: i32, y: i32) { self.0 += x + y; }
+    }
+}
+"""
+ONLY = {"opt_string_lists": ("c", "cpp", "nanobind"), "dup_files": ("js", "dart", "cpp"), "overloads": ("cpp", "nanobind", "kotlin", "c")}
 
 
 def bridges():
-    return [("byte_slices", BYTE_SLICES), ("opt_string_lists", OPT_STRING_LISTS), ("dup_files", DUP_FILES)] + [("docs", docs_bridge()), ("docs_traits", docs_bridge(True)), ("special", special_bridge()), ("lifetimes", lifetimes_bridge()),
+    return [("byte_slices", BYTE_SLICES), ("opt_string_lists", OPT_STRING_LISTS), ("dup_files", DUP_FILES), ("overloads", OVERLOADS)] + [("docs", docs_bridge()), ("docs_traits", docs_bridge(True)), ("special", special_bridge()), ("lifetimes", lifetimes_bridge()),
             ("constructors", constructors_bridge()), ("lifetimes_opt", lifetimes_opt_bridge())]
 
 
